@@ -210,6 +210,8 @@ def instantiate_plain(ad, did):
             d["inner"] = "Vec<T>"
             d["gen_decl"] = "<T: Ord>"
             d["gen_use"] = "<i32>"
+        elif d["ty"] == "Point":
+            d["inner"] = "Point"
         else:
             d["inner"] = "Vec<i32>"
     return d
@@ -247,6 +249,12 @@ def string_inputs(d, rng, nrandom):
 
 
 def any_inputs(d, rng, nrandom):
+    if d.get("ty") == "Point":
+        vals = {(a, b) for a in (1, 2, 3) for b in (1, 2, 3)}
+        vals |= {(0, 0), (-1, 1), (1, -1), (2**31 - 1, -2**31), (-2**31, 2**31 - 1), (7, 7)}
+        for _ in range(nrandom):
+            vals.add((rng.randint(-50, 50), rng.randint(-50, 50)))
+        return sorted(vals)
     vals = {()}
     E = [1, 2, 3]
     for a in E:
